@@ -186,6 +186,30 @@ class Ctx:
             return self.check(monitor, False, msg or f"expected {_names(exc)}, got {type(e).__name__}: {e}"[:300], args=a, kwargs=k)
         return self.check(monitor, False, msg or f"expected {_names(exc)}, call returned", args=a, kwargs=k, returned=r)
 
+    def probe(self, name, fn, *a, **k):
+        """Call fn(*a, **k) with arguments for which the property's statement names NO outcome (a rejection the library documents but
+        the statement does not, a convenience form it may or may not accept): the outcome is recorded as a coverage bin and is never a
+        verdict — a library that starts accepting such a call, or rejects it with another exception, still satisfies the property.
+        Only the exception-safety of a rejection is asserted, as in `raises`."""
+        before_args = [_arg_state(v) for v in a] + [(kk, _arg_state(v)) for kk, v in sorted(k.items())]
+        before_lib = library_state()
+        try:
+            with warnings.catch_warnings():
+                warnings.simplefilter("ignore")
+                fn(*a, **k)
+        except (Watchdog, MonitorError):
+            raise
+        except Exception as e:
+            self.bin(f"probe.{name}", type(e).__name__)
+            after_args = [_arg_state(v) for v in a] + [(kk, _arg_state(v)) for kk, v in sorted(k.items())]
+            changed = [i for i, (x, y) in enumerate(zip(before_args, after_args)) if x != y]
+            self.check("exception.safety", not changed, f"{getattr(fn, '__name__', type(fn).__name__)}: the rejected call ({type(e).__name__}) left argument(s) {changed} modified", args=a, kwargs=k)
+            d = library_state_diff(before_lib, library_state())
+            self.check("exception.safety", d is None, f"{getattr(fn, '__name__', type(fn).__name__)}: the rejected call ({type(e).__name__}) left library state changed: {d}", args=a, kwargs=k)
+            return False
+        self.bin(f"probe.{name}", "accepted")
+        return True
+
     # ---- coverage -------------------------------------------------------------------
     def case(self, sig, nontrivial=True, sample=None, desc=None):
         """Count one explored case. `sig` is the discretised descriptor used for distinctness."""
